@@ -11,11 +11,12 @@
 (*                      replace(side, path); [finally unlink(side)]; rmtree(tmp)   *)
 EXTENDS Naturals, Sequences, FiniteSets, TLC
 
-CONSTANTS AtomicClose, NWork, NMembers, MaxFaults
+CONSTANTS AtomicClose, NWork, NMembers, MaxFaults,
+          CloseOnInterrupt   \* design switch: __exit__ skips close() only for Exception, not for an interruption (KeyboardInterrupt, SystemExit, GeneratorExit)
 
 VARIABLES kind,    \* "new" | "edit"
           pc,      \* <<region, index>>
-          arc,     \* permanent path: "absent" | "prev" | "partial" | "new"
+          arc,     \* permanent path: "absent" | "prev" | "partial" | "new" | "incomplete" (well-formed, content of a half-done session)
           side,    \* sibling temporary archive: "absent" | "partial" | "complete"
           failed,  \* the session raised
           nfault,  \* faults injected so far
@@ -73,6 +74,17 @@ Fault ==
   /\ phase' = "retry"
   /\ UNCHANGED <<kind, pc, arc>>
 
+(* the body is interrupted (an exception that is not an Exception); as in the code  *)
+(* __exit__ leaves without closing for every exception type, unless the design       *)
+(* switch says otherwise: then close() runs on whatever the session had done so far  *)
+Interrupt ==
+  /\ phase = "run" /\ ~failed /\ nfault < MaxFaults /\ pc[1] = "work"
+  /\ failed' = TRUE
+  /\ nfault' = nfault + 1
+  /\ arc' = IF CloseOnInterrupt THEN "incomplete" ELSE arc
+  /\ phase' = "retry"
+  /\ UNCHANGED <<kind, pc, side>>
+
 (* a subsequent run on the same path *)
 RetryOk ==
   IF kind \in {"new", "copy"} THEN arc \in {"absent", "new"}      \* create again, or the result is there
@@ -82,7 +94,7 @@ Retry ==
   /\ phase' = "done"
   /\ UNCHANGED <<kind, pc, arc, side, failed, nfault>>
 
-Next == Advance \/ Fault \/ Retry
+Next == Advance \/ Fault \/ Interrupt \/ Retry
 Spec == Init /\ [][Next]_vars
 
 C38_Intact == failed => arc \in {Initial(kind), "new"}
